@@ -353,7 +353,8 @@ fn decode_edifact<'a>(
 }
 
 fn decode_c40_tuple(a: u8, b: u8) -> (u8, u8, u8) {
-    let mut full = ((a as u16) << 8) + b as u16 - 1;
+    // (0, 0) is not a valid pair; map it to a value that fails the range checks of the callers
+    let mut full = (((a as u16) << 8) + b as u16).wrapping_sub(1);
     let tmp = full / 1600;
     let c1 = tmp as u8;
     full -= tmp * 1600;
